@@ -122,11 +122,11 @@ func c03RealRepl(mode int, raw []byte) []byte {
 	case 0:
 		return parse.ReplaceEntities(b, mhtml.EntitiesMap, mhtml.TextRevEntitiesMap)
 	case 1:
-		return parse.ReplaceEntities(b, mhtml.EntitiesMap, nil)
+		return parse.ReplaceEntities(b, mhtml.EntitiesMap, mhtml.AttrRevEntitiesMap)
 	case 2:
 		return parse.ReplaceMultipleWhitespaceAndEntities(b, mhtml.EntitiesMap, mhtml.TextRevEntitiesMap)
 	default:
-		return parse.ReplaceMultipleWhitespaceAndEntities(b, mhtml.EntitiesMap, nil)
+		return parse.ReplaceMultipleWhitespaceAndEntities(b, mhtml.EntitiesMap, mhtml.AttrRevEntitiesMap)
 	}
 }
 
@@ -468,9 +468,6 @@ func c03StageSpecVal(c *Ctx) error {
 
 func init() {
 	register("C03", func(c *Ctx) error {
-		// h.NewRNG(seed) starts the same additive sequence one step later for seed+1, so that forks of neighbouring
-		// seeds coincide; re-seed from a mixed output so that different VERIF_SEEDs explore unrelated cases
-		c.Rng = &h.RNG{S: c.Rng.Next() ^ 0xC03C03C03C03C03}
 		if err := c03StageRefs(c); err != nil {
 			return err
 		}
